@@ -243,7 +243,10 @@ def sequence(rec, rng, cid, scratch):
     files = []
     for j in range(2):
         f = scratch / ("meas_%d_%d_%d.h5" % (cid[0], cid[1], j))
-        make_file(rng, f, int(rng.integers(2, 4)))
+        # (now and then more than ten curves: the base library lists them
+        #  "0, 1, 10, 11, 2, ...", position in the file != enumeration)
+        make_file(rng, f, int(rng.integers(2, 4)) if rng.random() < .75
+                  else int(rng.integers(11, 14)))
         files.append(f)
     recs = gen.recorded_single_curves()
     files.append(recs[int(rng.integers(len(recs)))])
